@@ -183,7 +183,7 @@ example : loopItems ({} : Cfg).budget (.range 0 100001) = .unmodelled "huge rang
 example : ∃ xs, loopItems 100001 (.range 0 100001) = .ok xs := ⟨_, rfl⟩
 
 /-- non-vacuity of `budget_monotone`: `{% for i in (8..11) %}{{ i }}{% endfor %}` renders `891011` under the budget 3 (the
-    smallest that admits the range), and therefore under every larger budget — in every value layer and environment -/
+    smallest that lets the range through), and therefore under every larger budget — in every value layer and environment -/
 example (P : Prims) (fs : FS) (env : Env) (m : Int) (hm : 3 ≤ m) :
     run P stdOut { budget := m } fs 1 (spell Delims.default (forPrintSrc (rangeArgs [105] 8 11) [105] Ws.std Ws.std Ws.std)) 1 env =
       .ok [56, 57, 49, 48, 49, 49] := by
